@@ -104,7 +104,8 @@ Section Oracles.
       if l =? 0 then Err EOther             (* the zero-byte CID error *)
       else
         match cid_from_reader (take l rest) with   (* CidFromReader(io.LimitReader(br.r, l)) *)
-        | CfrEof => Err EEof                (* bare io.EOF of CidFromReader is passed on *)
+        | CfrEof => Err EUnexpectedEof      (* stream ended right after the varint (repaired:
+                                               the bare io.EOF of CidFromReader is mapped) *)
         | CfrErr _ => Err EOther
         | CfrOk cn c _ _ =>
           let bsz := l - cn in
@@ -128,10 +129,9 @@ Section Oracles.
         end
     end.
 
-  (* the source after a call that failed with [e].  Only the clean-EOF case is tracked: every
-     io.EOF of Next/SkipNext comes either from an exhausted stream (nothing consumed) or right
-     after a length varint was read (zero-length section with ZeroLengthSectionAsEOF; stream
-     ending after the varint in SkipNext): that varint has been consumed. *)
+  (* the source after a call that failed with [e].  Only the clean-EOF case is tracked: an
+     io.EOF of Next/SkipNext comes either from an exhausted stream (nothing consumed) or from a
+     zero-length section under ZeroLengthSectionAsEOF, whose one-byte varint has been consumed. *)
   Definition end_state (e : err) (st : brp) : brp :=
     match e with
     | EEof => match read_uv (vis st) with VOk _ _ n => adv n st | _ => st end
